@@ -448,6 +448,18 @@ func (s *scope) resolve(key instanceKey, descriptor *Descriptor) (any, error) {
 			return instance, nil
 		}
 
+		// One invocation yields every output of a multi-output constructor. If
+		// a sibling output is cached already, the constructor has run in this
+		// scope and left this output nil: running it again would replace the
+		// sibling instances that were handed out before.
+		if s.siblingCached(descriptor) {
+			return nil, &ResolutionError{
+				ServiceType: key.Type,
+				ServiceKey:  key.Key,
+				Cause:       fmt.Errorf("constructor returned nil for this output"),
+			}
+		}
+
 		// Create and cache scoped instance
 		instance, err := s.createInstance(descriptor)
 		if err != nil {
@@ -465,6 +477,22 @@ func (s *scope) resolve(key instanceKey, descriptor *Descriptor) (any, error) {
 			Value: descriptor.Lifetime,
 		}
 	}
+}
+
+// siblingCached reports whether another registered output of the registration
+// call that produced descriptor is cached in this scope.
+func (s *scope) siblingCached(descriptor *Descriptor) bool {
+	for _, o := range descriptor.outputs {
+		if o == nil || o == descriptor || !s.rootProvider.isRegistered(o) {
+			continue
+		}
+
+		if _, ok := s.getInstance(instanceKey{Type: o.Type, Key: o.Key, Group: o.Group}); ok {
+			return true
+		}
+	}
+
+	return false
 }
 
 // lockCreation serialises the construction of one scoped service within this
